@@ -7279,9 +7279,9 @@ pub(crate) fn eval(env: &mut Env, session: &Session) -> Result<Value, EvalError>
         }
     }
 
-    Ok(env
-        .pop_value()
-        .expect("Should have a value from the last expression"))
+    // The last expression may not have produced a value, e.g. after
+    // `:replace continue` at the toplevel.
+    Ok(env.pop_value().unwrap_or_else(Value::unit))
 }
 
 fn eval_block(env: &mut Env, expr_value_is_used: bool, block: &Block) {
